@@ -88,8 +88,9 @@ var clRe = regexp.MustCompile(`^[+-]?[0-9]+$`)
 // (a Go twin of the Lean `endOfHeaders`/`addTrailerKeys` and of the C08 framing theorems):
 //
 //	Transfer-Encoding present  => exactly one field line, value "chunked" (case-insensitive, OWS trimmed), else reject
-//	else Content-Length present => all values are equal (trailing spaces aside) and the value is [+-]?DIGIT+ with
-//	                               0 <= n < 2^62, else reject (an empty value is non-numeric)
+//	Content-Length present     => all values are equal (trailing spaces aside) and the value is [+-]?DIGIT+ with
+//	                              0 <= n < 2^62, else reject (an empty value is non-numeric) — also when chunked
+//	                              overrides it
 //	chunked and Trailer present => no announced name is Transfer-Encoding, Trailer or Content-Length, else reject
 //
 // It returns (reason to reject or "", reason to reject because of the trailer or "", expected OnContentLength value).
@@ -115,7 +116,8 @@ func FramingRule(hdrs [][2]string) (reject, rejectTrailer string, wantCL int64) 
 			return fmt.Sprintf("unsupported Transfer-Encoding %q", te[0]), "", -1
 		}
 		chunked = true
-	} else if len(cl) > 0 {
+	}
+	if len(cl) > 0 { // judged whether or not chunked overrides it: a malformed Content-Length is malformed framing metadata
 		v := strings.TrimRight(cl[0], " ")
 		for _, o := range cl[1:] {
 			if strings.TrimRight(o, " ") != v {
@@ -129,7 +131,9 @@ func FramingRule(hdrs [][2]string) (reject, rejectTrailer string, wantCL int64) 
 		if err != nil || n < 0 || n >= 1<<62 {
 			return fmt.Sprintf("negative or overflowing Content-Length %q", cl[0]), "", -1
 		}
-		wantCL = n
+		if !chunked {
+			wantCL = n
+		}
 	}
 	if chunked {
 		for _, v := range tr {
@@ -264,6 +268,8 @@ func ErrCode(err error) int {
 		return 10
 	case errors.Is(err, nbhttp.ErrTooLong):
 		return 11
+	case errors.Is(err, nbhttp.ErrInvalidHTTPVersion):
+		return 19
 	}
 	s := err.Error()
 	switch {
